@@ -264,9 +264,14 @@ def cases(tier, seed):
         '3R_mixed': dict(joints=[dict(kind='revolute', axis='z', rpy=False), dict(kind='continuous', axis='z', xyz=False), fixed,
                                  dict(kind='revolute', rpy=False)]),
     }
+    # runs of consecutive fixed joints (each must be folded into the running pose, not into a cached one)
+    specs['two_fixed_after'] = dict(joints=[dict(kind='revolute', axis='z', rpy=False), fixed, dict(kind='fixed', rpy=False)])
+    specs['two_fixed_before'] = dict(joints=[fixed, dict(kind='fixed', rpy=False), dict(kind='revolute', axis='z', rpy=False)])
+    specs['two_fixed_between'] = dict(joints=[dict(kind='revolute', axis='z', rpy=False), dict(kind='fixed', rpy=False), fixed,
+                                              dict(kind='revolute', axis='z', rpy=False, xyz=False)])
     if tier == 'thorough':
         specs['4R'] = dict(joints=[dict(kind='revolute', axis='z', rpy=False)] * 2 + [fixed] + [dict(kind='revolute', axis='z', rpy=False)] * 2)
-        specs['two_fixed_between'] = dict(joints=[dict(kind='revolute', axis='z'), fixed, dict(kind='fixed', rpy=False), dict(kind='revolute', axis='z', rpy=False)])
+        specs['three_fixed_between'] = dict(joints=[dict(kind='revolute', axis='z'), fixed, dict(kind='fixed', rpy=False), fixed, dict(kind='revolute', axis='z', rpy=False)])
     cs = [Case('gen_' + k, h_generated, params=dict(spec=v)) for k, v in specs.items()]
     for f in ('ur5.urdf', 'puma_560.urdf', 'irb_2400.urdf'):
         cs.append(Case('bundled_' + f.split('.')[0], h_bundled, params=dict(file=f), concrete_only=True, concrete_samples=5))
